@@ -325,11 +325,30 @@ def none_tests_of(ctx, funcs, what='the legal empty list'):
 
 def check_size(ctx, fi):
     """full-domain size = exact integer product over self.shape"""
+    import re
+    from ..srcmodel import alpha_text, alpha_of
     cands = [r.value for r in walk_shallow(fi.node) if isinstance(r, ast.Return) and r.value is not None and 'self.shape' in U(r.value)]
+    local_shape = None
+    if not cands:
+        # the sizes multiplied are first collected in a local: self.shape for the whole domain, the sizes of the requested attributes otherwise
+        for r in walk_shallow(fi.node):
+            if isinstance(r, ast.Return) and r.value is not None:
+                m_ = re.fullmatch(r'(?:functools\.)?reduce\((?:lambdax,y:x\*y|operator\.mul),(\w+),1\)|(?:math\.)?prod\((\w+)\)', U(r.value).replace(' ', ''))
+                if m_:
+                    nm = m_.group(1) or m_.group(2)
+                    ds = [a_.value for a_ in ast.walk(fi.node) if isinstance(a_, ast.Assign) and len(a_.targets) == 1 and U(a_.targets[0]) == nm]
+                    p_ = fi.params[1] if len(fi.params) > 1 else 'attrs'
+                    sizes = {alpha_of('[self.config[a] for a in %s]' % p_), alpha_of('tuple(self.config[a] for a in %s)' % p_),
+                             alpha_of('[self.config[a] for a in %s]' % p_).replace('[', '(', 1)[:-1] + ')'}
+                    if ds and all(U(d) == 'self.shape' or alpha_text(d) in sizes for d in ds) and any(U(d) == 'self.shape' for d in ds):
+                        cands = [r.value]
+                        local_shape = nm
     if not cands:
         raise AnalysisError('Domain.size: product over self.shape not found')
     for v in cands:
         t = U(v).replace(' ', '')
+        if local_shape is not None:
+            t = t.replace(local_shape, 'self.shape')
         exact = t in ('reduce(lambdax,y:x*y,self.shape,1)', 'math.prod(self.shape)', 'reduce(operator.mul,self.shape,1)',
                       'functools.reduce(lambdax,y:x*y,self.shape,1)', 'prod(self.shape)')
         fixed_width = any(isinstance(c, ast.Call) and (U(c.func).startswith(('np.', 'numpy.'))) for c in ast.walk(v))
